@@ -89,9 +89,13 @@ class Path:
         self.status = "live"  # live | ret | raise | break | continue
         self.ret: Optional[Term] = None
         self.exc: Optional[Tuple[str, str, int]] = None  # (type text, cause, line)
+        self.src: Dict[str, tuple] = {}   # local name -> (source text, expression, versions of the names it reads)
+        self.ver: Dict[str, int] = {}     # local name -> number of assignments so far
 
     def fork(self) -> "Path":
         p = Path(self.env, self.events, self.conds)
+        p.src = dict(self.src)
+        p.ver = dict(self.ver)
         p.status = self.status
         p.ret = self.ret
         p.exc = self.exc
@@ -413,6 +417,14 @@ class Frame:
     def assign(self, tg, t: Term, p: Path, st):
         if isinstance(tg, ast.Name):
             p.env[tg.id] = t
+            p.ver[tg.id] = p.ver.get(tg.id, 0) + 1
+            v_ = getattr(st, "value", None)
+            if isinstance(st, (ast.Assign, ast.AnnAssign)) and v_ is not None and len(getattr(st, "targets", [None])) == 1 \
+                    and (st.targets[0] if isinstance(st, ast.Assign) else st.target) is tg:
+                reads = {n_.id: p.ver.get(n_.id, 0) for n_ in ast.walk(v_) if isinstance(n_, ast.Name)}
+                p.src[tg.id] = (ast.unparse(v_), v_, reads)
+            else:
+                p.src.pop(tg.id, None)
         elif isinstance(tg, (ast.Tuple, ast.List)):
             for i, e in enumerate(tg.elts):
                 self.assign(e, project(t, i), p, st)
@@ -700,6 +712,14 @@ class Frame:
         out: List[Tuple[Path, Optional[bool]]] = []
         d0 = self.decide(test, p)
         txt = ast.unparse(test)
+        if isinstance(test, ast.Name) and test.id in p.src:
+            # a test kept in a local stands for the expression it was assigned from — as long as nothing that
+            # expression reads has been re-assigned since
+            txt_, expr_, reads_ = p.src[test.id]
+            if test.id not in reads_ and all(p.ver.get(n_, 0) == v_ for n_, v_ in reads_.items()):
+                txt = txt_
+                if d0 is None:
+                    d0 = self.decide(expr_, p)
         for q, tt in self.expr(test, p):
             if q.status != "live":
                 out.append((q, None))
